@@ -47,7 +47,11 @@ def run_one(m, base, keep=False):
     d = os.path.join(base, m["name"])
     make_copy(d)
     try:
-        err = apply_edits(d, m["edits"])
+        if m.get("patch"):
+            pp = subprocess.run(["patch", "-p1", "-s", "-i", os.path.join(VERIF, m["patch"])], cwd=d, stdout=subprocess.PIPE, stderr=subprocess.STDOUT, text=True)
+            err = ("patch does not apply: " + pp.stdout[-300:]) if pp.returncode != 0 else None
+        else:
+            err = apply_edits(d, m["edits"])
         if err:
             return m, "SKIP", err
         results = []
@@ -66,6 +70,9 @@ def run_one(m, base, keep=False):
                 ok = p.returncode == 0 and "VIOLATION" not in out
             elif exp == "broken":
                 ok = p.returncode == 2
+            elif exp == "miss":
+                # a documented limit of the technique: recorded, never a failure; it would be good news if it turned into a report
+                ok = True
             results.append((pid, ok, p.returncode, out))
         bad = [r for r in results if not r[1]]
         if bad:
@@ -84,6 +91,9 @@ def main():
         jobs = int(sys.argv[sys.argv.index("-j") + 1])
         args = [a for a in args if a != str(jobs)]
     muts = json.load(open(os.path.join(HERE, "mutants.json")))
+    seeds = os.path.join(HERE, "seeds.json")
+    if os.path.exists(seeds):
+        muts += json.load(open(seeds))
     if args:
         muts = [m for m in muts if any(a in m["name"] or a in m["properties"] for a in args)]
     base = tempfile.mkdtemp(prefix="wb_selftest_")
